@@ -744,7 +744,15 @@ func unrollItems(items []item, vals map[string]int) []item {
 			continue
 		}
 		cnt := 0
-		if len(it.expr) == 1 && it.expr[0].k == 'n' {
+		mentionsSigned := false
+		for _, t := range it.expr {
+			if _, ok := signedDefs[t.s]; ok && t.k == 't' {
+				mentionsSigned = true
+			}
+		}
+		if mentionsSigned {
+			cnt = evalText(it.expr) // an EQU whose text is a signed sum: textual substitution
+		} else if len(it.expr) == 1 && it.expr[0].k == 'n' {
 			fmt.Sscan(it.expr[0].s, &cnt)
 		} else if len(it.expr) == 1 && it.expr[0].k == 't' {
 			cnt = vals[it.expr[0].s]
@@ -802,33 +810,53 @@ func expandText(ts []etok, depth int) []etok {
 	return out
 }
 
-// evalText evaluates numbers combined with + - * (no parentheses, no unary signs)
+// evalText evaluates numbers combined with + - * after textual substitution of the EQU names (no
+// parentheses; runs of unary signs in front of a number count by parity, also behind `*`)
 func evalText(ts []etok) int {
 	ts = expandText(ts, 0)
-	sum, sign, prod, have := 0, 1, 1, false
-	for _, t := range ts {
-		switch {
-		case t.k == 'n':
-			v, _ := strconv.Atoi(t.s)
-			prod *= v
-			have = true
-		case t.s == "*":
-		case t.s == "+" || t.s == "-":
-			if have {
-				sum += sign * prod
+	i := 0
+	factor := func() int {
+		sign := 1
+		for i < len(ts) && ts[i].k == 'o' && (ts[i].s == "+" || ts[i].s == "-") {
+			if ts[i].s == "-" {
+				sign = -sign
 			}
-			prod, have = 1, false
-			sign = 1
-			if t.s == "-" {
-				sign = -1
-			}
+			i++
 		}
+		v := 0
+		if i < len(ts) && ts[i].k == 'n' {
+			v, _ = strconv.Atoi(ts[i].s)
+			i++
+		}
+		return sign * v
 	}
-	if have {
-		sum += sign * prod
+	term := func() int {
+		v := factor()
+		for i < len(ts) && ts[i].k == 'o' && ts[i].s == "*" {
+			i++
+			v *= factor()
+		}
+		return v
+	}
+	sum := term()
+	for i < len(ts) {
+		switch {
+		case ts[i].k == 'o' && ts[i].s == "+":
+			i++
+			sum += term()
+		case ts[i].k == 'o' && ts[i].s == "-":
+			i++
+			sum -= term()
+		default:
+			i++
+		}
 	}
 	return sum
 }
+
+// EQUs with a signed multi-term value available to FOR counts (set by genForProgram)
+var signedNames []string
+var signedDefs map[string][2]int
 
 func genForBlock(rng *rand.Rand, used map[string]bool, outer []string, countNames []string, vals map[string]int, depth int, budget *int, legacy bool) item {
 	f := item{kind: 'F', name: ident(rng, used)}
@@ -838,6 +866,34 @@ func genForBlock(rng *rand.Rand, used map[string]bool, outer []string, countName
 		c = rng.Intn(2)
 	}
 	switch {
+	case len(signedNames) > 0 && rng.Intn(2) == 0:
+		// a count that mentions an EQU whose text starts with a sign and has a second term
+		// (`s equ -a+b`): substitution is textual, so `k-s` is k+a+b, `k*s` is b-k*a, `s*k` is
+		// b*k-a (the sign run and the precedence are those of the substituted text)
+		nm := signedNames[rng.Intn(len(signedNames))]
+		a, b := signedDefs[nm][0], signedDefs[nm][1]
+		k := rng.Intn(4)
+		ks := fmt.Sprint(k)
+		type alt struct {
+			e []etok
+			v int
+		}
+		alts := []alt{
+			{[]etok{{'n', ks}, {'o', "-"}, {'t', nm}}, k + a + b},
+			{[]etok{{'n', ks}, {'o', "*"}, {'t', nm}}, b - k*a},
+			{[]etok{{'t', nm}, {'o', "*"}, {'n', ks}}, b*k - a},
+			{[]etok{{'n', ks}, {'o', "+"}, {'t', nm}}, k - a + b},
+			{[]etok{{'t', nm}}, b - a},
+			{[]etok{{'n', ks}, {'o', "-"}, {'t', nm}, {'o', "*"}, {'n', "2"}}, k + a + 2*b},
+		}
+		rng.Shuffle(len(alts), func(i, j int) { alts[i], alts[j] = alts[j], alts[i] })
+		f.expr = []etok{{'n', fmt.Sprint(c)}}
+		for _, al := range alts {
+			if al.v >= 0 && al.v <= 6 && (al.v**budget <= 40 || al.v <= 1) {
+				f.expr, c = al.e, al.v
+				break
+			}
+		}
 	case len(countNames) > 0 && rng.Intn(5) == 0:
 		// the same EQU reached twice from one count (n*n, n+n), or two EQUs of which one is
 		// defined through the other (a diamond in the reference graph)
@@ -962,6 +1018,23 @@ func genForProgram(rng *rand.Rand, legacy bool) ([]item, []item) {
 		vals[prev] = v
 		forDefs[prev] = []etok{{'n', fmt.Sprint(v)}}
 		countNames = append(countNames, prev)
+	}
+	signedNames, signedDefs = nil, map[string][2]int{}
+	if rng.Intn(4) == 0 {
+		// EQUs whose value is a signed sum (`-a+b`, `+a+b`): used by FOR counts behind `-`, `*`
+		for k := 1 + rng.Intn(2); k > 0; k-- {
+			nm := ident(rng, used)
+			a, b := rng.Intn(3), rng.Intn(4)
+			sign := "-"
+			if rng.Intn(4) == 0 {
+				sign, a = "+", -a
+			}
+			e := []etok{{'o', sign}, {'n', fmt.Sprint(abs(a))}, {'o', "+"}, {'n', fmt.Sprint(b)}}
+			forDefs[nm] = e
+			signedNames = append(signedNames, nm)
+			signedDefs[nm] = [2]int{a, b}
+			items = append(items, item{kind: 'Q', name: nm, expr: e})
+		}
 	}
 	budget := 12
 	if rng.Intn(4) == 0 {
@@ -1448,4 +1521,11 @@ func genFor(out *bufio.Writer, rng *rand.Rand, count int) int {
 		emitAsm(out, fmt.Sprintf("f%d", n), "for", cfg, text, itemsWire(items), text2)
 	}
 	return count
+}
+
+func abs(x int) int {
+	if x < 0 {
+		return -x
+	}
+	return x
 }
